@@ -18,6 +18,7 @@ KINDS = {
     "cstep": (lockstep.gen_cstep_case, lockstep.coq_expr_cx, lockstep.impl_lines_cx, 4000),
     "fexec": (lockstep.gen_fexec_case, lockstep.coq_expr_fs, lockstep.impl_lines_fs, 3000),
     "ublock": (lockstep.gen_ublock_case, lockstep.coq_expr, lockstep.impl_lines, 800),
+    "cblockd": (lockstep.gen_cblockd_case, lockstep.coq_expr_cc, lockstep.impl_lines_cc, 1500),
 }
 
 
@@ -56,7 +57,7 @@ def lockstep_compare(runs):
     for (k, c, r), o in zip(ok, outs):
         il = KINDS[k][2](c, r)
         cut = lockstep.cut_at_reraise(r) if k not in ("block", "cblock") else None
-        if k == "cblock":
+        if k in ("cblock", "cblockd"):
             d = lockstep.compare_lines(il, o, None)       # Model/CacheExec.v: every point compared, cache operations included
         elif k == "fexec":
             d = lockstep.compare_lines(il, o, None)
